@@ -322,7 +322,7 @@ func c11Stream(o *out, r *rng, thorough bool) {
 	exts := []string{".iso", ".ISO", ".IsO", ".bin", ".iso.bak", ""}
 	keySits := []string{"none", "adjacent", "redkey", "both", "bad-adjacent", "bad-redkey", "short-adjacent", "dir-adjacent", "redkey-is-file", "long-name"}
 	marks := []string{"none", "enc", "dec"}
-	lens := []int64{0x1000, 0x106f, 0x1070, 0x1071, 0x3000, 0x8800}
+	lens := []int64{0xF7F, 0xF80, 0xF8F, 0xF90, 0x1000, 0x106f, 0x1070, 0x1071, 0x3000, 0x8800}
 	count := 0
 	for _, dn := range dirNames {
 		for _, ext := range exts {
@@ -349,13 +349,17 @@ func c11Stream(o *out, r *rng, thorough bool) {
 						n.overlays = []overlay{{0, tableBytes(regs)}}
 						embedded := randKey(r)
 						switch mk {
-						case "enc":
-							if ln >= 0xF90 {
-								n.overlays = append(n.overlays, overlay{0xF70, wmEnc}, overlay{0xF80, embedded})
+						case "enc", "dec":
+							// as much of the watermark (and of the embedded key) as the file has room for
+							wm := wmDec
+							if mk == "enc" {
+								wm = wmEnc
 							}
-						case "dec":
-							if ln >= 0xF80 {
-								n.overlays = append(n.overlays, overlay{0xF70, wmDec})
+							if ln > 0xF70 {
+								n.overlays = append(n.overlays, overlay{0xF70, wm[:min(16, ln-0xF70)]})
+							}
+							if mk == "enc" && ln > 0xF80 {
+								n.overlays = append(n.overlays, overlay{0xF80, embedded[:min(16, ln-0xF80)]})
 							}
 						}
 						t := &tree{}
@@ -429,10 +433,12 @@ func c11Stream(o *out, r *rng, thorough bool) {
 						}
 						masked := false
 						if openOK && key == nil {
+							// recognised by the watermark: the file must hold it (16 bytes at 0xF70) and, for the
+							// encrypted form, the key behind it - not necessarily the whole 256-byte area
 							switch {
-							case mk == "enc" && ln >= 0x1070:
+							case mk == "enc" && ln >= 0xF90:
 								key, kind, masked = embedded, "3k3y-enc", true
-							case mk == "dec" && ln >= 0x1070:
+							case mk == "dec" && ln >= 0xF80:
 								kind, masked = "3k3y-dec", true
 							}
 						}
